@@ -15,8 +15,9 @@
      - check_fl_samples_per_event skips empty traces, check_fl_max*_positive
        skip empty features (no exception)
      - check_feature_size counts the stored contours
-     - rectify_metadata takes the event count from the first trace when
-       "trace" is the alphabetically first feature. *)
+   and with dclab commit ea8e52b (rectify_metadata takes the event count from
+   the first trace dataset when "trace" is the alphabetically first feature;
+   [rectify_gen false] is the behaviour before that commit). *)
 From Coq Require Import String ZArith List Bool.
 Import ListNotations.
 Open Scope Z_scope.
@@ -468,8 +469,8 @@ Definition violations_flat (f : file) : list (list Z) :=
 (* ------------------------------------------------------------------ *)
 (* sorted(h5file["events"].keys()) with len(h5file["events"][name]);
    for the group "trace" the (fixed) code looks at its first member when the
-   group is not empty.  [trace_len_fixed = false] gives the behaviour before
-   fixes_proposed/C13-writer-eventcount-trace-first.diff *)
+   group is not empty.  [fixed = false] gives the behaviour before dclab
+   commit ea8e52b *)
 Definition first_trace_len (f : file) : Z :=
   match f_traces f with
   | [] => 0
